@@ -165,6 +165,7 @@ fn run_opts(rng: &mut Rng, prog: &Program) -> RunOpts {
         walk_every: if prog.n <= 32 { 1 + rng.usize_below(4) } else { 64 },
         pre_run_probes: true,
         default_queue: false,
+        paused_past_probes: false,
     }
 }
 
@@ -212,9 +213,26 @@ pub fn cmd_c02(args: &Args) -> Report {
                 rep.sample(json!({"program": serde_json::to_value(&prog).unwrap(), "trace": serde_json::to_value(&out.log).unwrap()}));
             }
         }
+        let clean = findings.is_empty();
         let case = case_json("c02", &prog, json!({"run": {"default_queue": opts.default_queue}}));
         if !report(&mut rep, "C02", findings, &case) {
             break;
+        }
+        // the same program driven in steps: the clock stays monotone, equals the timestamps, and between
+        // steps an insertion just below the reported time is rejected
+        if clean && i % 3 == 0 && !out.log.is_empty() {
+            let mut prog2 = prog.clone();
+            let steps = random_schedule(&mut rng, &mut prog2, &out.log, false);
+            opts.paused_past_probes = true;
+            let out2 = real_run(&prog2, Mode::Steps(&steps), &opts);
+            rep.count("stepped_runs", 1);
+            rep.count("paused_adds_below_reported_time_rejected", out2.paused_past_rejected);
+            rep.count("clock_writes_observed", out2.clock.writes);
+            let findings = check_c02(&prog2, &out2, true);
+            let case = case_json("c02", &prog2, json!({"steps": serde_json::to_value(&steps).unwrap(), "past_probes": true}));
+            if !report(&mut rep, "C02", findings, &case) {
+                break;
+            }
         }
     }
     rep
@@ -465,7 +483,7 @@ pub fn cmd_c10(args: &Args) -> Report {
         let size = if small { 1 + rng.usize_below(7) } else { 2 + rng.usize_below(max_events) };
         let (tie_heavy, nonzero_start) = (rng.chance(2, 3), rng.chance(1, 4));
         let prog = gen_program(&mut rng, GenOpts { max_events: size, tie_heavy, past_attempts: false, nonzero_start, small_n: false });
-        let opts = RunOpts { walk_every: if prog.n <= 32 { 2 } else { 0 }, pre_run_probes: false, default_queue: false };
+        let opts = RunOpts { walk_every: if prog.n <= 32 { 2 } else { 0 }, pre_run_probes: false, default_queue: false, paused_past_probes: false };
         vcommon::mark_case(&format!("c10:{}:{}:{}", args.seed, args.shard, i));
         let base = real_run(&prog, Mode::Run, &opts);
         rep.eval();
@@ -668,7 +686,7 @@ pub fn cmd_c11(args: &Args) -> Report {
         let size = if small { 1 + rng.usize_below(30) } else { 2 + rng.usize_below(max_events) };
         let (tie_heavy, nonzero_start) = (rng.chance(1, 2), rng.chance(1, 4));
         let prog = gen_program(&mut rng, GenOpts { max_events: size, tie_heavy, past_attempts: false, nonzero_start, small_n: false });
-        let opts = RunOpts { walk_every: if prog.n <= 32 { 3 } else { 0 }, pre_run_probes: false, default_queue: false };
+        let opts = RunOpts { walk_every: if prog.n <= 32 { 3 } else { 0 }, pre_run_probes: false, default_queue: false, paused_past_probes: false };
         vcommon::mark_case(&format!("c11:{}:{}:{}", args.seed, args.shard, i));
         let base = real_run(&prog, Mode::Run, &opts);
         rep.eval();
@@ -767,7 +785,12 @@ impl LTree {
 pub fn replay(case: &Value) -> i32 {
     let prog: Program = serde_json::from_value(case.get("program").expect("program").clone()).expect("program");
     let mode = case.get("mode").expect("mode");
-    let opts = RunOpts { walk_every: 1, pre_run_probes: true, default_queue: mode.pointer("/run/default_queue").and_then(Value::as_bool).unwrap_or(false) };
+    let opts = RunOpts {
+        walk_every: 1,
+        pre_run_probes: true,
+        default_queue: mode.pointer("/run/default_queue").and_then(Value::as_bool).unwrap_or(false),
+        paused_past_probes: mode.get("past_probes").and_then(Value::as_bool).unwrap_or(false),
+    };
     let sub = case.get("sub").and_then(Value::as_str).unwrap_or("");
     println!("program: {}", serde_json::to_string(&prog).unwrap());
     let findings: Vec<Finding> = if let Some(steps) = mode.get("steps") {
@@ -780,7 +803,11 @@ pub fn replay(case: &Value) -> i32 {
         };
         let out = real_run(&prog, Mode::Steps(&steps), &opts);
         println!("stepped trace: {:?}\npaused observations: {:?}", out.log, out.steps);
-        check_c10(&prog, &steps, &out, base.as_deref())
+        if sub == "c02" {
+            check_c02(&prog, &out, true)
+        } else {
+            check_c10(&prog, &steps, &out, base.as_deref())
+        }
     } else if let Some(calls) = mode.get("limit_calls") {
         let calls: Vec<LimitCall> = serde_json::from_value(calls.clone()).expect("limit calls");
         let base = real_run(&prog, Mode::Run, &opts);
